@@ -577,11 +577,18 @@ class Ctx:
             (m, cden), = d.den.items()
             if cden > 0 and all(poly.atom_by_id(k).name in self.positive for k, _ in m):
                 d = RatFunc(dict(d.num), poly.p_const(1), self.tab)._norm()
-        if self.positive and poly.p_is_const(d.den) and len(d.num) == 1:
-            (m, cn), = d.num.items()
-            if m and all(poly.atom_by_id(k).name in self.positive for k, _ in m):
-                sgn = cn / poly.p_const_value(d.den)
-                return {"<": sgn < 0, "<=": sgn < 0, "==": False, "!=": True}[op]
+        if self.positive and poly.p_is_const(d.den) and d.num:
+            # a sum of products of positive atoms with coefficients of one sign has that sign
+            dc = poly.p_const_value(d.den)
+            signs = set()
+            for m, cn in d.num.items():
+                if not all(poly.atom_by_id(k).name in self.positive for k, _ in m):
+                    signs = None
+                    break
+                signs.add((cn / dc) > 0)
+            if signs is not None and len(signs) == 1:
+                pos = signs.pop()
+                return {"<": not pos, "<=": not pos, "==": False, "!=": True}[op]
         # (linear form)^3 + r op 0  <=>  linear form op cbrt(-r)   (x -> x^3 strictly monotone)
         cube = _cube_of_linear(d, self)
         if cube is not None:
@@ -890,6 +897,8 @@ class Evaluator:
 
     def index(self, v, i):
         v = self.deref(v)
+        if isinstance(v, Bottom):
+            return v
         if isinstance(v, Ite):
             return mk_ite_c(v.c, self.index(v.t, i), self.index(v.f, i))
         if isinstance(v, (Array, Tuple)):
@@ -1934,6 +1943,12 @@ class Evaluator:
             return IterV(ElemRef(tgt, fr, self.elem_of(base)))
         raise Opaque("iter_mut of non-place")
 
+    def op_slice_len(self, args, fr, c, e):
+        a = self.deref(args[0])
+        if isinstance(a, (Array, Tuple)):
+            return self.ctx.num(len(a.items))
+        return self.uninterpreted(self.app_name(self.S[c["d"]], c, fr), [a])
+
     def op_slice_iter(self, args, fr, c, e):
         return IterV(self.elem_of(self.deref(args[0])))
 
@@ -2470,6 +2485,7 @@ for _t in ("std", "core"):
     _reg(["%s::ops::DivAssign::div_assign" % _t], "div_assign")
     _reg(["%s::slice::<impl [T]>::iter_mut" % _t], "slice_iter_mut")
     _reg(["%s::slice::<impl [T]>::iter" % _t], "slice_iter")
+    _reg(["%s::slice::<impl [T]>::len" % _t], "slice_len")
     _reg(["%s::iter::Iterator::for_each" % _t], "iter_for_each")
 _REF_OPS = ("into_array_mut", "clamp_assign", "clamp_min_assign", "clamp_max_assign", "add_assign", "sub_assign", "mul_assign", "div_assign",
             "slice_iter_mut", "iter_for_each")
